@@ -82,9 +82,7 @@ def spaces(tier, variant, seed):
         size, order = blk
         for endian in (-1, 0, 1):
             for nails in range(0, 8 * size):
-                if quick and size > 8 and nails not in (0, 1, 7, 8, 9, 8 * size - 9, 8 * size - 8, 8 * size - 1, 4 * size, 8 * size - 2):
-                    continue
-                for mis in (range(8) if (size <= 8 or not quick) else (0, 1, 7)):
+                for mis in range(8):
                     for vi in range(len(VALS)):
                         yield (size, order, endian, nails, mis, vi)
 
